@@ -444,9 +444,6 @@ fn main() {
             let all: Vec<usize> = (0..N_BASES).collect();
             ctx.harness(Config::new("record_rt_k2", 2), |ch| record_body(ch, &envs, &all));
             ctx.harness(Config::new("record_rt_k3_minimal", 3), |ch| record_body(ch, &envs, &[0]));
-            ctx.harness(Config::new("record_rt_k3_sv", 3).time_limit(std::time::Duration::from_secs(600)), |ch| {
-                record_body(ch, &envs, &[2])
-            });
         }
 
         // (3) literal lines
